@@ -143,6 +143,26 @@ def core_models(I, st, caller, func, args, argtys, dest_ty):
             return ret(st, mk_option(True, ordering(a, b)))
         if op in ("max", "min"):
             return ret(st, z3.If(a >= b, a, b) if op == "max" else z3.If(a <= b, a, b))
+    m = re.match(r"^<Option<.*> as PartialEq>::(eq|ne)$", f)
+    if m:
+        a, b = deref_all(I, st, args[0]), deref_all(I, st, args[1])
+        if isinstance(a, EnumV) and isinstance(b, EnumV):
+            da = a.discr if z3.is_expr(a.discr) else z3.IntVal(a.discr)
+            db = b.discr if z3.is_expr(b.discr) else z3.IntVal(b.discr)
+            pa = deref_all(I, st, a.payloads[1][0]) if 1 in a.payloads else None
+            pb = deref_all(I, st, b.payloads[1][0]) if 1 in b.payloads else None
+            if pa is not None and pb is not None:
+                if isinstance(pa, Abs) and isinstance(pb, Abs):
+                    pe = pa.term == pb.term
+                elif z3.is_expr(pa) and z3.is_expr(pb):
+                    pe = pa == pb
+                else:
+                    raise Unencodable("Option::eq on payloads %r %r" % (pa, pb))
+                r = z3.And(da == db, z3.Or(da == 0, pe))
+            else:
+                r = z3.And(da == db, da == 0)
+            r = z3.simplify(r)
+            return ret(st, r if m.group(1) == "eq" else z3.Not(r))
     # ---- std::cmp::{max,min}::<T>: `match Ord::cmp(&a,&b) { Greater => a, _ => b }` (max), reverse for min
     m = re.match(r"^std::cmp::(max|min)::<(.*)>$", f)
     m_ord = re.match(r"^<(.*) as Ord>::(max|min)$", f)
@@ -212,6 +232,18 @@ def core_models(I, st, caller, func, args, argtys, dest_ty):
             return ret(st, EnumV("Ordering", z3.simplify(z3.If(d == 0, od, d)), {}))
         return ret(st, {"is_eq": d == 0, "is_ne": d != 0, "is_lt": d < 0, "is_gt": d > 0, "is_le": d <= 0, "is_ge": d >= 0}[op])
     # ---- Option / Result --------------------------------------------------------------------
+    m = re.match(r"^Result::<.*>::(expect_err|unwrap_err)$", f)
+    if m:
+        v = deref_all(I, st, args[0])
+        outs = []
+        for c, idx in split_enum(I, st, v, f):
+            s2 = st.fork()
+            s2.assume(c)
+            if idx == 1:
+                outs.append(Outcome("return", v.payloads[1][0], s2))
+            else:
+                outs.append(Outcome("panic", None, s2, "Result::%s on Ok" % m.group(1)))
+        return outs
     m = re.match(r"^(Option|Result)::<.*>::(unwrap|expect|is_some|is_none|is_ok|is_err|ok|err|unwrap_or|unwrap_or_default)$", f)
     if m:
         kind, op = m.group(1), m.group(2)
@@ -353,6 +385,22 @@ def generic_args(f):
 
 def hof_models(I, st, caller, func, args, argtys, dest_ty):
     f = strip_std_paths(func)
+    m0 = re.match(r"^Result::<.*>::or_else::<", f)
+    if m0:
+        v = deref_all(I, st, args[0])
+        ga = generic_args(f)
+        clos_ty = next((g for g in ga if "closure@" in g), None)
+        outs = []
+        for c, idx in split_enum(I, st, v, f):
+            s2 = st.fork()
+            s2.assume(c)
+            if idx == 0:
+                outs.append(Outcome("return", v, s2))
+            else:
+                if clos_ty is None:
+                    raise Unencodable("or_else without closure")
+                outs.extend(call_closure(I, s2, caller, clos_ty, args[1], [v.payloads[1][0]]))
+        return outs
     m = re.match(r"^(Option|Result)::<.*?>::(and_then|map|is_some_and|is_none_or|is_ok_and|map_err|ok_or|ok_or_else|unwrap_or_else|map_or|filter)::<", f)
     if not m:
         m2 = re.match(r"^(Option|Result)::<.*>::(ok_or)::<", f)
